@@ -142,7 +142,7 @@ def predicates(case, out, libs):
 
 
 def run(ctx):
-    pr = ctx.prove()
+    pr = ctx.prove(extra_targets=["ChainDB/Corr.vo"])
     ctx.cov["trusted_base"] = ["Coq 8.16.1 kernel + vm_compute", "Go toolchain + overlay", "engine harness/engines/chaindb, reference node, lib/chaindb.py predicates",
                                "consensus stub with scripted LIB", "apply/spent abstraction of block execution"]
     ctx.assumptions = ["LIB stream is monotone (C08)", "block identifiers are collision-free digests (F8 excluded)",
